@@ -620,6 +620,81 @@ fn condlist_family(only: Option<u64>, thin: u64) {
     println!("{{\"family\":\"condlist\",\"fn\":\"extract\",\"cases\":{},\"universe\":{},\"failures\":{},\"failed_cases\":{:?},\"first\":{}}}", evaluated, cases, failed.len(), failed, first.unwrap_or("null".into()));
 }
 
+// family `condobj` (C05, bounded, source level): `type X = A extends B | C ? 1 : 2` for object types with the
+// properties a, b each absent / required / optional of string or number and an optional index signature
+// `[k: string]: string | number-typed` (TypeScript-valid shapes only: declared properties conform to the signature),
+// against brute force over the 27 objects with the keys a, b, c (each absent, a string or a number): exact reading on
+// the left (declared properties only, further keys only under an index signature), structural on the right.
+fn condobj_family(only: Option<u64>, thin: u64) {
+    #[derive(Clone, Copy, Debug, PartialEq)]
+    enum F { Absent, Req(u8), Opt(u8) }   // 0 = string, 1 = number
+    #[derive(Clone, Debug)]
+    struct O { a: F, b: F, idx: Option<u8> }
+    let mut fields = vec![F::Absent];
+    for t in [0u8, 1u8] { fields.push(F::Req(t)); fields.push(F::Opt(t)); }
+    let mut objs: Vec<O> = vec![];
+    for a in &fields { for b in &fields { for idx in [None, Some(0u8), Some(1u8)] {
+        let ok = match idx { None => true, Some(t) => [*a, *b].iter().all(|f| match f { F::Absent => true, F::Req(x) | F::Opt(x) => *x == t }) };
+        if ok { objs.push(O { a: *a, b: *b, idx }); }
+    } } }
+    let tn = |t: u8| if t == 0 { "string" } else { "number" };
+    let obj_ts = |o: &O| -> String {
+        let mut parts: Vec<String> = vec![];
+        for (k, f) in [("a", o.a), ("b", o.b)] { match f { F::Absent => {} F::Req(t) => parts.push(format!("{}: {}", k, tn(t))), F::Opt(t) => parts.push(format!("{}?: {}", k, tn(t))) } }
+        if let Some(t) = o.idx { parts.push(format!("[k: string]: {}", tn(t))); }
+        format!("{{ {} }}", parts.join(", "))
+    };
+    let vopts: [Option<u8>; 3] = [None, Some(0), Some(1)];
+    let mut values: Vec<[Option<u8>; 3]> = vec![];
+    for x in vopts { for y in vopts { for z in vopts { values.push([x, y, z]); } } }
+    let field_ok = |f: F, v: Option<u8>, idx: Option<u8>, exact: bool| -> bool {
+        match f {
+            F::Req(t) => v == Some(t),
+            F::Opt(t) => v.is_none() || v == Some(t),
+            F::Absent => match idx { Some(t) => v.is_none() || v == Some(t), None => if exact { v.is_none() } else { true } },
+        }
+    };
+    let is_val = |o: &O, v: &[Option<u8>; 3], exact: bool| field_ok(o.a, v[0], o.idx, exact) && field_ok(o.b, v[1], o.idx, exact) && field_ok(F::Absent, v[2], o.idx, exact);
+    let n = objs.len();
+    let (mut cases, mut skipped, mut evaluated) = (0u64, 0u64, 0u64);
+    let mut failed: Vec<u64> = vec![];
+    let mut first: Option<String> = None;
+    std::panic::set_hook(Box::new(|_| {}));
+    for a in 0..n { for b in 0..n { for c in 0..n {
+        cases += 1;
+        if let Some(o) = only { if o != cases { continue; } } else if cases % thin != 0 { continue; }
+        evaluated += 1;
+        let spec = values.iter().all(|v| !is_val(&objs[a], v, true) || is_val(&objs[b], v, false) || is_val(&objs[c], v, false));
+        let src = format!("type A = {};\ntype B = {};\ntype C = {};\ntype X = A extends B | C ? 1 : 2;\nparse.buildParsers<{{ X: X }}>();\n", obj_ts(&objs[a]), obj_ts(&objs[b]), obj_ts(&objs[c]));
+        let answer: Result<Option<bool>, String> = match std::panic::catch_unwind(|| {
+            GLOBALS.set(&Globals::new(), || {
+                let f = BffFileName::new("entry.ts".into());
+                let m = match parse_and_bind(&mut Res {}, &f, &src) { Ok(m) => m, Err(_) => return None };
+                let mut fs = BTreeMap::new();
+                fs.insert(f, m);
+                let mut man = Fm { fs };
+                let p = beff_core::extract(&mut man, EntryPoints { parser_entry_point: BffFileName::new("entry.ts".into()),
+                    settings: BeffUserSettings { string_formats: BTreeSet::new(), number_formats: BTreeSet::new() } });
+                if !p.errors.is_empty() { return None; }
+                let out = p.debug_print();
+                if out.contains("type X = 1;") { Some(true) } else if out.contains("type X = 2;") { Some(false) } else { None }
+            })
+        }) { Ok(x) => Ok(x), Err(_) => Err("the compiler PANICS".to_string()) };
+        let bad = match answer {
+            Ok(None) => { skipped += 1; None }
+            Ok(Some(r)) => if r != spec { Some(format!("the conditional type takes the branch {}", if r { 1 } else { 2 })) } else { None },
+            Err(e) => Some(e),
+        };
+        if let Some(obs) = bad {
+            failed.push(cases);
+            if std::env::var("TWIN_ALL").is_ok() { eprintln!("FAIL case {} | {} extends {} | {} | {} | expected {}", cases, obj_ts(&objs[a]), obj_ts(&objs[b]), obj_ts(&objs[c]), obs, if spec { 1 } else { 2 }); }
+            if first.is_none() { first = Some(format!("{{\"case\":{},\"input\":{:?},\"observed\":{:?},\"required\":{:?}}}", cases, src, obs, format!("branch {} (brute force over the 27 objects with keys a, b, c)", if spec { 1 } else { 2 }))); }
+        }
+    } } }
+    if skipped > 0 { eprintln!("condobj: {} questions answered with a diagnostic (skipped)", skipped); }
+    println!("{{\"family\":\"condobj\",\"fn\":\"extract\",\"cases\":{},\"universe\":{},\"failures\":{},\"failed_cases\":{:?},\"first\":{}}}", evaluated, cases, failed.len(), failed, first.unwrap_or("null".into()));
+}
+
 fn main() {
     let args: Vec<String> = std::env::args().collect();
     let mut depth = 1usize;
@@ -630,6 +705,7 @@ fn main() {
     let mut is_child = false;
     let mut cond = false;
     let mut condlist: Option<u64> = None;
+    let mut condobj: Option<u64> = None;
     let mut i = 1;
     while i < args.len() {
         match args[i].as_str() {
@@ -641,11 +717,13 @@ fn main() {
             "--child" => { is_child = true; i += 1; }
             "--cond" => { cond = true; i += 1; }
             "--condlist" => { condlist = Some(args[i + 1].parse().unwrap()); i += 2; }
+            "--condobj" => { condobj = Some(args[i + 1].parse().unwrap()); i += 2; }
             _ => i += 1,
         }
     }
     if cond { cond_family(only); return; }
     if let Some(thin) = condlist { condlist_family(only, thin); return; }
+    if let Some(thin) = condobj { condobj_family(only, thin); return; }
     if is_child { child(depth, offset, from, only, timeout_s); return; }
     let exe = std::env::current_exe().expect("exe");
     let total = if std::env::var("FRONT_SRC").is_ok() { 1 } else { programs(depth, offset).len() as u64 };
